@@ -182,6 +182,13 @@ func genC11(e *emitter, tier string) {
 		e.emit(opCase("cast-fraction", "Cast", []Attr{{Name: "to", Type: "i", I: int64(onnxCode["i64"])}}, []*TJ{fT(src, []int{4}, []float64{9e18, -9e18, 4294967296.5, -4294967296.5})}, nil))
 		e.emit(opCase("cast-fraction", "Cast", []Attr{{Name: "to", Type: "i", I: int64(onnxCode["u32"])}}, []*TJ{fT(src, []int{3}, []float64{4294967040, 2147483648, 3e9})}, nil))
 	}
+	// large tensors (element counts that are not multiples of the usual block sizes)
+	for _, sh := range [][]int{{33027}, {3, 109, 101}} {
+		for _, pr := range [][2]string{{"f32", "i32"}, {"i64", "f32"}, {"f64", "u16"}, {"i32", "i64"}} {
+			e.emit(opCase("large", "Cast", []Attr{{Name: "to", Type: "i", I: int64(onnxCode[pr[1]])}}, []*TJ{seqT(pr[0], sh, func(i int) float64 { return float64(i%97 + 1) })}, nil))
+		}
+		e.emit(opCase("large", "ConstantOfShape", []Attr{{Name: "value", Type: "t", T: vals("i32", []int{1}, 7)}}, []*TJ{idxT("i64", []int{len(sh)}, sh)}, nil))
+	}
 	e.emit(opCase("cast-attrs", "Cast", nil, []*TJ{iota1("f32", 2)}, nil))
 	e.emit(opCase("cast-attrs", "Cast", []Attr{{Name: "too", Type: "i", I: 1}}, []*TJ{iota1("f32", 2)}, nil))
 	// ConstantOfShape: every value type, shapes rank 1..4, default value, invalid extents / values
